@@ -215,7 +215,7 @@ def c08_frame():
 
 # C02: the default-value constructors (`impl Variables { pub fn default_<name>() -> T }`) are emitted items too.  Whether they
 # type-check is rustc's verdict: one bin target per case in /verif/replay-exec/dflt, `cargo check` is the probe (bounded: these cases).
-C02_DEFAULT_CASES = ["scalars", "enum_value", "enum_list", "object_members", "object_nested", "object_struct_name",
+C02_DEFAULT_CASES = ["scalars", "enum_value", "enum_list", "object_members", "object_nested", "object_struct_name", "list_required",
                      "recursive_boxed_member", "object_omits_required_with_schema_default", "list_of_nullable_items", "oneof_literal"]
 
 
@@ -310,7 +310,7 @@ def extra_checks_inner(pid, tier):
             import vxcompile
             return vxcompile.c12_compile(tier) + vxcompile.c12_mutual(tier)
         if pid == "C18":
-            return compile_probes("C18", ["c18_named_serde_derives", "c18_path_qualified_derives"])
+            return compile_probes("C18", ["c18_named_serde_derives", "c18_path_qualified_derives", "c18_keys_next_to_extern_enums"])
     except Undecided as e:
         return [{"obligation": pid + ".shape", "status": "undecided", "engine": "declaration-shape", "detail": str(e)}]
     return []
